@@ -9,3 +9,5 @@ func verifPollHook(any, time.Time) {}
 func verifAddHook(any, time.Time) {}
 
 func verifPopHook(any, time.Time) {}
+
+func verifAddLockHook(any, time.Time) {}
